@@ -149,6 +149,9 @@ pub fn run(ctx: &mut Ctx) {
         let mut s = if family >= 5 { gen::snap(&mut r, &StateOpts { vals: Vals::Small, max_depth: 3, graphs: false, io: true, bindings: true, flags: false, random_cfg: false }, &alphabet) } else { Snap::empty() };
         s.e.clear();
         s.q = false;
+        // flat: the program's items lie on EXEC one by one (as after parsing `1 2 INTEGER.DDUP`)
+        // instead of as one list whose unpacking is itself a growth step
+        let mut flat = false;
         let prog = match family {
             0 => {
                 // terminates in exactly n non-final steps, for every n around the limit
@@ -157,6 +160,7 @@ pub fn run(ctx: &mut Ctx) {
                 // one case in three: the LAST step is the one that grows the state (EXEC is empty
                 // afterwards, nothing is left to run): the cap must be judged on that step too
                 if r.chance(1, 3) {
+                    flat = true;
                     if v.len() < 2 {
                         v.insert(0, SItem::Int(7));
                         v.insert(0, SItem::Int(8));
@@ -199,10 +203,16 @@ pub fn run(ctx: &mut Ctx) {
             _ => {
                 let pts = 3 + r.below(40);
                 let d = 1 + r.below(4);
+                flat = r.chance(1, 4);
                 gen::program(&mut r, pts, d, Vals::Small, &alphabet)
             }
         };
         s.e = vec![prog.clone()];
+        if flat {
+            if let SItem::List(v) = &prog {
+                s.e = v.clone();
+            }
+        }
         s.cfg.eval_push_limit = limit;
         s.cfg.growth_cap = cap;
         s.cfg.eval_time_limit = 600_000; // time can never be the cause here
